@@ -9,6 +9,7 @@ import CircuitModel.Conc.Gauge
 import CircuitModel.Conc.Trans
 import CircuitModel.Conc.TC
 import CircuitModel.Conc.Mgr
+import CircuitModel.Conc.Call
 import CircuitModel.Basic
 namespace CM
 open Conc
@@ -399,5 +400,87 @@ def suiteTrMgr (kvs : List (String × String)) (lines : List (String × String))
   let ignore : Nat → Bool := fun i => match ops[i]? with | some 'v' => true | _ => false
   let st : Mgr.State := { ctors := if kvNat kvs "sf" 0 == 1 then [.statFactory] else [] }
   (TrMgr.conform ignore (Conc.Mgr.init st jobs) (lines.map (·.1))).map fun r => r ++ "\t-"
+
+end CM
+
+/-! ### shed (whole calls racing the transitions) -/
+namespace CM
+open Conc
+namespace TrCall
+open Conc.Call
+
+def tracked (body : String) : Bool :=
+  body == "run-invoked" || body == "deliver-opened" || body == "deliver-closed" ||
+  (body.splitOn " ").any fun t => t == "c.isOpen" || t == TrTrans.fo || t == TrTrans.fc || t == TrTrans.mu
+
+/-- the trace text of the step the model expects next from a thread; `none` = a silent model step -/
+def expected (s : Shared) (l : Local) : Option String :=
+  let ldFO := s!"load {TrTrans.fo} -> {s.t.forceOpen}"
+  let ldFC := s!"load {TrTrans.fc} -> {s.t.forcedClosed}"
+  let ldFl := s!"load c.isOpen -> {s.t.isOpen}"
+  match l.pc with
+  | .aFO | .gFO | .pFO | .oFO => some ldFO
+  | .aFC | .pFC | .oFC | .oFC2 => some ldFC
+  | .aFlag | .pFlag | .oFlag => some ldFl
+  | .askAllow | .askPrevent | .shedNow | .askShouldOpen => none
+  | .invoke => some "run-invoked"
+  | .trans tl => TrTrans.expected s.t tl
+  | .done => none
+
+def isSilent (s : Shared) (l : Local) : Bool :=
+  match l.pc with
+  | .done => false
+  | _ => (expected s l).isNone
+
+def advanceSilent (c : Config Shared Local) (i : Nat) : Nat → Config Shared Local
+  | 0 => c
+  | fuel + 1 =>
+    match c.locals[i]? with
+    | some l => if isSilent c.shared l then
+        (match step i c.shared l with
+         | some (s', l') => advanceSilent { shared := s', locals := c.locals.set i l' } i fuel
+         | none => c)
+      else c
+    | none => c
+
+def conform (c : Config Shared Local) : List String → List String
+  | [] => []
+  | line :: rest =>
+    match line.splitOn " " with
+    | ["R", iS, what] =>
+      (match iS.toNat? with
+       | none => "bad-line" :: conform c rest
+       | some i =>
+         let c := advanceSilent c i 6
+         let e := match outcomeOf c i with | some .ran => "ran" | some .shed => "shed" | none => "nothing"
+         if e == what then "ok" :: conform c rest
+         else s!"MISMATCH thread {i}: in the model the call ends as [{e}], the code reports [{what}]" :: conform c rest)
+    | tidS :: toks =>
+      let body := " ".intercalate toks
+      if !tracked body then "skip" :: conform c rest else
+      (match tidS.toNat? with
+       | none => "bad-line" :: conform c rest
+       | some tid =>
+         let c := advanceSilent c tid 6
+         match c.locals[tid]? with
+         | none => s!"MISMATCH no such thread {tid}" :: conform c rest
+         | some l =>
+           match expected c.shared l with
+           | none => s!"MISMATCH model expects nothing more from thread {tid} but the code did: {body}" :: conform c rest
+           | some e =>
+             if e != body then s!"MISMATCH thread {tid}: model expects [{e}] code did [{body}]" :: conform c rest
+             else match step tid c.shared l with
+               | some (s', l') => "ok" :: conform { shared := s', locals := c.locals.set tid l' } rest
+               | none => s!"MISMATCH thread {tid}: [{body}] is not enabled in the model" :: conform c rest)
+    | _ => "bad-line" :: conform c rest
+
+end TrCall
+
+/-- header of the `shed` scenario: init=(0|1) ops=<O|F|S per thread>; the closer admits nobody and never closes,
+    the opener says open after every failure -/
+def suiteTrCall (kvs : List (String × String)) (lines : List (String × String)) : List String :=
+  let jobs : List Conc.Call.Job := ((kvGet kvs "ops").getD "").toList.map fun ch =>
+    if ch == 'O' then .open else if ch == 'F' then .call { fails := true, shouldOpen := true } else .call {}
+  (TrCall.conform (Conc.Call.init false false (kvBool kvs "init" false) jobs) (lines.map (·.1))).map fun r => r ++ "\t-"
 
 end CM
